@@ -45,7 +45,7 @@ def cfg_strategy():
         return st.sampled_from(sorted(SUBK)).flatmap(lambda k: st.tuples(st.just(k), st.lists(st.sampled_from(subsets(SUBK[k]) + [SUBK[k]]), min_size=1, max_size=2)))
     return st.sampled_from(sorted(PRIM)).flatmap(lambda kid: st.fixed_dictionaries({
         'primary': st.just(kid), 'uids': st.lists(uid(kid), min_size=1, max_size=2),
-        'subs': st.lists(sub(), max_size=3, unique_by=lambda x: x[0])}))
+        'subs': st.lists(sub(), max_size=3, unique_by=lambda x: x[0]), 'unhashed': st.sampled_from([False, False, True])}))
 
 
 def build(cfg, secret, locked=False, with_uids=True, sub_pw=None):
@@ -62,18 +62,20 @@ def build(cfg, secret, locked=False, with_uids=True, sub_pw=None):
         return keypool.secret_body(k, protect={'usage': 254, 'sym': 7, 'spec': spec, 'iv': bytes(range(16)), 'passphrase': pw})
     out = wire.build_packet(5 if secret else 6, secbody(kid) if secret else ppub.body)
     t0 = ppub.created + 100
+    # a key-flags subpacket in the *unhashed* area is not covered by the signature: anyone can add it, so it grants nothing
+    unauth = keypool.sp(27, bytes([C | S | EC | ES | A])) if cfg.get('unhashed') else b''
     if with_uids:
         for i, flags in enumerate(cfg['uids']):
             ub = ('User %d <u%d@example.org>' % (i, i)).encode()
             extra = keypool.sp(27, bytes([flags | C])) + keypool.sp(11, bytes([9, 7])) + keypool.sp(21, bytes([8])) + keypool.sp(22, bytes([2, 0]))
-            body = rsig.sign(psec, 0x13, 8, ('cert', ppub, 'uid', ub), keypool.std_hashed(t0 + (len(cfg['uids']) - i), ppub.fingerprint, extra), keypool.sp(16, ppub.keyid))
+            body = rsig.sign(psec, 0x13, 8, ('cert', ppub, 'uid', ub), keypool.std_hashed(t0 + (len(cfg['uids']) - i), ppub.fingerprint, extra), keypool.sp(16, ppub.keyid) + unauth)
             out += wire.build_packet(13, ub) + wire.build_packet(2, body)
     for skid, hist in cfg['subs']:
         ssec = keypool.ref_secret(skid)
         spub = ssec.pub
         out += wire.build_packet(7 if secret else 14, secbody(skid) if secret else spub.body)
         for j, flags in enumerate(hist):
-            unh = keypool.sp(16, ppub.keyid)
+            unh = keypool.sp(16, ppub.keyid) + unauth
             if flags & S:
                 eb = rsig.sign(ssec, 0x19, 8, ('subkey', ppub, spub), keypool.std_hashed(t0 + j, spub.fingerprint), keypool.sp(16, spub.keyid))
                 unh += keypool.sp(32, eb)
@@ -179,8 +181,8 @@ def evaluate(c, rec):
         user = None
     comps = components(cfg, user)
     case = dict(c, user=user)
-    key = (cfg['primary'], tuple(cfg['uids']), tuple((k, tuple(h)) for k, h in cfg['subs']), op, form, enforce, user)
-    labels = ['op/' + op, 'form/' + form, 'enforce/%s' % enforce, 'nsubs/%d' % len(cfg['subs'])]
+    key = (cfg['primary'], tuple(cfg['uids']), tuple((k, tuple(h)) for k, h in cfg['subs']), op, form, enforce, user, bool(cfg.get('unhashed')))
+    labels = ['op/' + op, 'form/' + form, 'enforce/%s' % enforce, 'nsubs/%d' % len(cfg['subs'])] + (['unauthenticated-flags-in-unhashed-area'] if cfg.get('unhashed') else [])
     sample = {'primary': cfg['primary'], 'identity_flags': cfg['uids'], 'subkeys': cfg['subs'], 'op': op, 'form': form, 'enforcement': enforce, 'user': user}
 
     if op == 'decrypt':
@@ -296,6 +298,8 @@ FIXED = [
     {'primary': 'ed25519-0', 'uids': [0], 'subs': [('ecdsa-p256-1', [S, A]), ('cv25519-1', [EC, 0]), ('ecdh-p256-0', [0, ES])]},
     {'primary': 'rsa1024-0', 'uids': [EC | ES], 'subs': [('rsa1024-1', [S])]},
     {'primary': 'rsa1024-0', 'uids': [A], 'subs': [('ed25519-1', [A]), ('cv25519-0', [A & 0])]},
+    {'primary': 'ed25519-0', 'uids': [0, A], 'subs': [('ed25519-1', [A]), ('cv25519-0', [0])], 'unhashed': True},
+    {'primary': 'rsa1024-0', 'uids': [0], 'subs': [('rsa1024-1', [A])], 'unhashed': True},
 ]
 
 
@@ -309,8 +313,120 @@ def w_random(arg):
     seed, idx, n, bsec = arg
     rec = harness.Rec()
     strat = st.fixed_dictionaries({'cfg': cfg_strategy(), 'pick': st.integers(0, 3)})
-    harness.run_given(strat, lambda c: sweep({'primary': c['cfg']['primary'], 'uids': list(c['cfg']['uids']), 'subs': [(k, list(h)) for k, h in c['cfg']['subs']]}, rec, c['pick']),
+    harness.run_given(strat, lambda c: sweep({'primary': c['cfg']['primary'], 'uids': list(c['cfg']['uids']), 'subs': [(k, list(h)) for k, h in c['cfg']['subs']], 'unhashed': c['cfg'].get('unhashed', False)}, rec, c['pick']),
                       harness.derive_seed('C16', seed, idx), n, harness.Budget(bsec), rec)
+    return rec
+
+
+def history_strategy():
+    step = st.one_of(
+        st.tuples(st.just('op'), st.sampled_from(['sign', 'certify', 'sign']), st.integers(0, 2)),
+        st.tuples(st.just('op'), st.sampled_from(['sign', 'certify', 'sign']), st.integers(0, 2)),
+        st.tuples(st.just('recert'), st.integers(0, 2), st.sampled_from([0, S, A, S | A])),
+        st.tuples(st.just('rebind'), st.integers(0, 2), st.sampled_from([0, S, A, S | A])),
+        st.tuples(st.just('add_uid'), st.sampled_from([0, S, A])),
+        st.tuples(st.just('del_uid'), st.integers(0, 2)),
+    ).map(list)
+    return st.fixed_dictionaries({'kind': st.just('history'), 'primary': st.sampled_from(['ed25519-0', 'ecdsa-p256-0']), 'uids': st.lists(st.sampled_from([0, S, A]), min_size=1, max_size=2),
+                                  'subs': st.lists(st.tuples(st.sampled_from(['ed25519-1', 'ecdsa-p256-1']), st.sampled_from([0, S, A])).map(list), max_size=2, unique_by=lambda x: x[0]),
+                                  'steps': st.lists(step, min_size=2, max_size=9)})
+
+
+def run_history(c, rec):
+    """The same key object lives through changes of its self-signatures (re-certified identity, re-bound subkey, identity added or removed);
+    every signing / certifying operation in between is judged against the capability flags in force at that moment."""
+    import datetime
+    import pgpy
+    from pgpy.constants import SignatureType, KeyFlags
+    cfg = {'primary': c['primary'], 'uids': list(c['uids']), 'subs': [(k, [f]) for k, f in c['subs']]}
+    key = keypool.pgpy_key(build(cfg, True))
+    target = keypool.pgpy_key(keypool.ref_cert('ed25519-2', secret=False))
+    names = ['User %d' % i for i in range(len(cfg['uids']))]      # identity i of the model is addressed by this name
+    t = keypool.ref_public(c['primary']).created + 5000
+    applied = []
+
+    def fs(f):
+        return {x for x in KeyFlags if f & x.value}
+    for n, step in enumerate(c['steps']):
+        t += 10
+        when = datetime.datetime.fromtimestamp(t, datetime.timezone.utc)
+        try:
+            if step[0] == 'recert':
+                i = step[1] % len(names)
+                u = key.get_uid(names[i])
+                u |= key.certify(u, SignatureType.Positive_Cert, usage=fs(step[2] | C), created=when)
+                cfg['uids'][i] = step[2]
+            elif step[0] == 'rebind':
+                if not cfg['subs']:
+                    continue
+                j = step[1] % len(cfg['subs'])
+                sub = [sk for sk in key.subkeys.values() if str(sk.fingerprint) == keypool.ref_public(cfg['subs'][j][0]).fingerprint.hex().upper()][0]
+                sub |= key.bind(sub, usage=fs(step[2]), created=when)
+                cfg['subs'][j][1].append(step[2])
+            elif step[0] == 'add_uid':
+                if len(names) >= 4:
+                    continue
+                nm = 'User %d' % (len(names) + 10 * n + 10)
+                key.add_uid(pgpy.PGPUID.new(nm), usage=fs(step[1] | C), created=when)
+                names.append(nm)
+                cfg['uids'].append(step[1])
+            elif step[0] == 'del_uid':
+                if len(names) < 2:
+                    continue
+                i = step[1] % len(names)
+                key.del_uid(names[i])
+                del names[i]
+                del cfg['uids'][i]
+            else:
+                op, i = step[1], step[2] % len(names)
+                need = NEED[op]
+                comps = components(cfg, i)
+                granting = [k for _, k, f in comps if f & need]
+                try:
+                    res = key.sign(b'usage policy', user=names[i]) if op == 'sign' else key.certify(target.userids[0], user=names[i])
+                    outcome = 'ok'
+                except Exception as e:   # noqa
+                    res, outcome = e, 'raised'
+                changed = any(a in ('recert', 'rebind', 'add_uid', 'del_uid') for a in applied)
+                rec.case(('history', c['primary'], tuple(applied), op, tuple(cfg['uids']), tuple((k, tuple(h)) for k, h in cfg['subs'])), changed,
+                         ['history/op-' + op, 'history/outcome-' + outcome, 'history/after-change=%s' % changed, 'granting/%d' % len(granting)],
+                         {'kind': 'history', 'before': list(applied), 'op': op, 'identity_flags_now': list(cfg['uids']), 'subkeys_now': [list(x) for x in cfg['subs']], 'outcome': outcome})
+                if outcome == 'raised' and granting:
+                    rec.finding('policy-history', 'refused-although-a-component-grants/' + op, c, 'step %d after %r: %r; granting now: %r' % (n, applied, res, granting))
+                elif outcome == 'ok':
+                    named, acted, info = acting_component(cfg, res, op)
+                    if named is not None and acted is None:
+                        subj = ('doc', b'usage policy') if op == 'sign' else ('cert', keypool.ref_public('ed25519-2'), 'uid', b'Pool Key <pool@example.org>')
+                        acted = rsig.verify(info, subj, keypool.ref_public(named))[0]
+                    if named is None or not acted:
+                        rec.finding('policy-history', 'named-component-did-not-act/' + op, c, 'step %d' % n)
+                    elif not granting:
+                        rec.finding('policy-history', 'no-component-grants-but-not-refused/' + op, c, 'step %d after %r: performed by %s although no component has the capability now (identity flags %r, subkeys %r)' % (
+                            n, applied, named, cfg['uids'], cfg['subs']))
+                    elif named not in granting:
+                        rec.finding('policy-history', 'acting-component-lacks-capability/' + op, c, 'step %d after %r: named %s, granting %r' % (n, applied, named, granting))
+            applied.append(step[0] if step[0] != 'op' else step[1])
+        except harness.HarnessError:
+            raise
+        except Exception as e:   # noqa
+            rec.finding('policy-history', 'exception/%s/%s' % (step[0], harness.exc_key(e)), c, 'step %d %r: %r' % (n, step, e))
+            return
+
+
+HIST_SCRIPTS = [
+    {'kind': 'history', 'primary': 'ed25519-0', 'uids': [S], 'subs': [], 'steps': [['op', 'sign', 0], ['recert', 0, 0], ['op', 'sign', 0], ['recert', 0, S], ['op', 'sign', 0]]},
+    {'kind': 'history', 'primary': 'ed25519-0', 'uids': [0, S], 'subs': [['ed25519-1', S]], 'steps': [['op', 'sign', 1], ['rebind', 0, A], ['op', 'sign', 1], ['op', 'sign', 0], ['recert', 1, 0], ['op', 'sign', 1], ['del_uid', 0], ['op', 'sign', 0]]},
+    {'kind': 'history', 'primary': 'ecdsa-p256-0', 'uids': [0], 'subs': [['ecdsa-p256-1', 0]], 'steps': [['op', 'sign', 0], ['add_uid', S], ['op', 'sign', 1], ['op', 'sign', 0], ['rebind', 0, S], ['op', 'sign', 0]]},
+]
+
+
+def w_history(arg):
+    seed, idx, n, bsec = arg
+    rec = harness.Rec()
+    if idx == 0:
+        for sc in HIST_SCRIPTS:
+            run_history(sc, rec)
+    harness.run_given(history_strategy(), lambda c: run_history(c, rec), harness.derive_seed('C16h', seed, idx), n, harness.Budget(bsec), rec)
     return rec
 
 
@@ -319,6 +435,8 @@ def run(tier, seed):
     n, bsec = (6, 80) if tier == 'quick' else (120, 1200)
     for i in range(9 if tier == 'quick' else 25):
         tasks.append(('w_random', (seed, i, n, bsec)))
+    for i in range(4 if tier == 'quick' else 8):
+        tasks.append(('w_history', (seed, i, 25 if tier == 'quick' else 600, 60 if tier == 'quick' else 900)))
     return harness.pmap('vpgpy.props.c16', 'dispatch', tasks)
 
 
@@ -329,6 +447,9 @@ def dispatch(task):
 def replay(case):
     rec = harness.Rec()
     c = dict(case)
-    c['cfg'] = {'primary': c['cfg']['primary'], 'uids': list(c['cfg']['uids']), 'subs': [(k, list(h)) for k, h in c['cfg']['subs']]}
+    if c.get('kind') == 'history':
+        run_history(c, rec)
+        return [(f['clause'], f['cause'], f['detail']) for f in rec.findings]
+    c['cfg'] = {'primary': c['cfg']['primary'], 'uids': list(c['cfg']['uids']), 'subs': [(k, list(h)) for k, h in c['cfg']['subs']], 'unhashed': c['cfg'].get('unhashed', False)}
     evaluate(c, rec)
     return [(f['clause'], f['cause'], f['detail']) for f in rec.findings]
